@@ -279,8 +279,14 @@ def s_For(I, st, env):
     ordn = loop_ordinal(I, st)
     spec = I.V.loop_spec(I.frame.qual, ordn)
     it = I.eval(st.iter, env)
+    if spec is not None and spec.elem_ty and not isinstance(it, (SList, PyList)):
+        it = PyList(I.concrete_iter(it))
     if isinstance(it, Obj) and it.cls == "generator":
         it = it.fields["trace"]
+    elif isinstance(it, Obj) and not it.rec and I.V.has_method(it.cls, "__iter__"):
+        it = I.call_method(it, "__iter__", [], {})
+    if isinstance(it, Opaque) or (isinstance(it, Iter) and any(isinstance(x, Opaque) for x in it.srcs)):
+        return opaque_loop(I, st, env)
     if spec is None or spec.unroll:
         try:
             items = I.concrete_iter(it)
@@ -300,6 +306,33 @@ def s_For(I, st, env):
             exec_block(I, st.orelse, env)
         return
     cut_loop(I, st, env, spec, ordn, it)
+
+
+def opaque_loop(I, st, env):
+    """A loop over an iterable the engine knows nothing about: sound only if the body cannot touch tracked
+    state -- then its effect is havoc of the names it assigns (and it may raise)."""
+    names, attrs, mutated = assigned_names(st.body)
+    tn, _, _ = assigned_names([ast.Assign(targets=[st.target], value=ast.Constant(0))])
+    tracked = I.V.tracked_calls(I.frame.qual)
+    for n in ast.walk(ast.Module(body=st.body, type_ignores=[])):
+        if isinstance(n, (ast.Return, ast.Yield, ast.YieldFrom)):
+            raise Unsupported(f"loop over an unknown iterable at line {st.lineno} contains return/yield")
+        if isinstance(n, ast.Call):
+            fn = ast.unparse(n.func)
+            if any(fn == t or fn.endswith("." + t) for t in tracked):
+                raise Unsupported(f"loop over an unknown iterable at line {st.lineno} calls tracked {fn}")
+    if attrs:
+        raise Unsupported(f"loop over an unknown iterable at line {st.lineno} assigns attributes {sorted(attrs)}")
+    untracked = I.V.untracked(I.frame.qual)
+    for nm in sorted((names | tn | {m for m in mutated if m.isidentifier()}) - untracked):
+        if env.has(nm):
+            cur = env.lookup(nm)
+            if cur is _UNBOUND or isinstance(cur, (FuncRef, ClassRef, Closure)):
+                continue
+            env.set(nm, havoc_value(I, cur, nm))
+        else:
+            env.vars[nm] = Opaque(nm)
+    I.V.havoc_call(I, f"<loop body at line {st.lineno}>", [], {}, st)
 
 
 def s_While(I, st, env):
@@ -369,6 +402,19 @@ def havoc_value(I: Interp, v, hint):
         return nv
     if isinstance(v, SDict):
         return fresh_value(I.ctx, v.ty, hint)
+    if isinstance(v, PyDict):
+        out = {}
+        for k, x in v.d.items():
+            if isinstance(x, PyList) and not x.items:
+                decl = I.V.local_type(I.frame.qual, hint + "[]")
+                if decl is None:
+                    raise Unsupported(f"cannot havoc {hint}[{k!r}]: declare locals['{hint}[]']")
+                nv = fresh_value(I.ctx, decl, f"{hint}[{k}]")
+                nv.immutable = False
+                out[k] = nv
+            else:
+                out[k] = havoc_value(I, x, f"{hint}[{k}]")
+        return PyDict(out)
     if isinstance(v, Iter):
         ni = Iter(v.kind, v.srcs, v.start, v.n)
         ni.pos = SV(I.ctx.fresh(INT, hint + "_pos"), INT).t
@@ -394,7 +440,15 @@ def cut_loop(I: Interp, st, env: Env, spec, ordn, it):
     is_for = isinstance(st, ast.For)
     qual = I.frame.qual
     if is_for:
+        if spec.elem_ty and isinstance(it, (PyList, list, tuple)):
+            from .core import slist_of
+            from .types import parse_ty
+
+            items = it.items if isinstance(it, PyList) else list(it)
+            it = slist_of(I.ctx, items, parse_ty(spec.elem_ty))
         n_it, getter = iter_len_and_get(I, it)
+        if isinstance(it, SList):
+            I.ghost[f"_iter{ordn}"] = it
     idx = spec.index or f"_k{ordn}"
 
     def check_inv(kind):
@@ -443,6 +497,15 @@ def cut_loop(I: Interp, st, env: Env, spec, ordn, it):
             else:
                 env.vars[nm] = _UNBOUND
     for path in sorted(attrs | {m for m in mutated if not m.isidentifier()}):
+        pnode = ast.parse(path, mode="eval").body
+        if any(isinstance(x, ast.Call) for x in ast.walk(pnode)):
+            # an attribute of a call result: the object comes from a callee policy (opaque / fresh per call)
+            continue
+        root = pnode
+        while isinstance(root, (ast.Attribute, ast.Subscript)):
+            root = root.value
+        if isinstance(root, ast.Name) and (not env.has(root.id) or env.lookup(root.id) is _UNBOUND):
+            continue
         V.havoc_path(I, env, path)
     V.on_loop_havoc(I, st, env, spec)
     if is_for:
